@@ -82,7 +82,7 @@ theorem RestInv_local (F : Flags) (o : Obs) (x : Act) (ev : Ev) (y : Act) (eff :
   | callReacqDefer i hp hc => exact RestInv_post _ (afterDefer_phase _)
   | cmdEndDefer j r cmd hp hd hs => exact RestInv_post _ (afterDefer_phase _)
   | callRet i d r hp hk => cases d <;> simp_all [RestInv, bodyPhase, openND]
-  | _ => simp_all [RestInv, bodyPhase, openND, Act.stop]
+  | _ => simp_all [RestInv, bodyPhase, openND, Act.stop, Act.stopDeps]
 
 theorem RestInv_kids (x : Act) (k : List (Nat × Nat)) (h : RestInv x) : RestInv { x with kids := k } := h
 
@@ -170,6 +170,16 @@ theorem lateP_step (F : Flags) (o : Obs) (x : Act) (ev : Ev) (y : Act) (eff : Ef
   | cmdEndDefer j r cmd hp hd hs =>
     refine ⟨?_, (afterDefer_fields _).2.2.1, (afterDefer_fields _).2.1⟩
     rcases afterDefer_phase x with h1 | h1 <;> rw [h1] <;> rfl
+  | _ => simp_all [lateP]
+
+/-- … and so is what the execution ended with (what its waiters will take) -/
+theorem lateP_step_out (F : Flags) (o : Obs) (x : Act) (ev : Ev) (y : Act) (eff : Eff)
+    (h : stepLocal F o x ev = some (y, eff)) (hl : lateP x.phase = true) : y.out = x.out := by
+  have hL := LStep_of_stepLocal F o x ev y eff h
+  cases hL with
+  | callRet i d r hp hk => cases d <;> simp_all [lateP]
+  | callReacqDefer i hp hc => exact afterDefer_out _
+  | cmdEndDefer j r cmd hp hd hs => exact afterDefer_out _
   | _ => simp_all [lateP]
 
 /-- no non-deferred command starts in the deferred part or after it -/
@@ -281,7 +291,7 @@ theorem StatusInv_local (F : Flags) (o : Obs) (x : Act) (ev : Ev) (y : Act) (eff
     refine ⟨?_, h2, ?_⟩
     · intro hh; cases hh
     intro hi hw n
-    simp only [Act.stop] at hi ⊢
+    simp only [Act.stopDeps] at hi ⊢
     rw [hi]; exact depErr_direct_ne_exit r n
   | wWake r hp he =>
     refine ⟨?_, h2, ?_⟩
@@ -295,6 +305,69 @@ theorem StatusInv_local (F : Flags) (o : Obs) (x : Act) (ev : Ev) (y : Act) (eff
 theorem StatusInv_sound (P : Program) (F : Flags) (n : Nat) (tr : List Label) (c : Config)
     (h : replay P F (init n) tr = some c) (a : Nat) (x : Act) (hx : c.act? a = some x) : StatusInv x :=
   localInv_sound StatusInv P F (StatusInv_fresh P F) (fun o x ev y eff => StatusInv_local F o x ev y eff)
+    (fun _ _ h => h) n tr c h a x hx
+
+/-! ### every activation wraps what `startExecution` gave it according to its own call -/
+
+theorem wrapFor_marked (b : Bool) (r : Res) : wrapFor b ⟨r, true⟩ = (if b then r else .run r) := rfl
+theorem wrapFor_plain (b : Bool) (r : Res) : wrapFor b ⟨r, false⟩ = r := rfl
+theorem wrapFor_indirect (o : Outcome) : wrapFor true o = o.err := by
+  unfold wrapFor; split <;> rfl
+theorem depErr_eq_wrapFor (b : Bool) (r : Res) : depErr b r = wrapFor b (depOut r) := by
+  cases r <;> rfl
+
+/-- **the result of an activation is its own wrapping of the outcome it took** — of its own
+execution, of the shared execution it waited for, or of the early return: `RunTask`'s last
+lines, for the executor and for every waiter alike -/
+def OutInv (x : Act) : Prop := x.res = wrapFor x.indirect x.out
+
+theorem OutInv_fresh (P : Program) (F : Flags) (c : Config) (kind : Kind) (t : Nat) :
+    OutInv (freshAct P F c kind t) := by
+  unfold OutInv
+  simp only [freshAct]
+  cases h : earlyResult P[t]? (c.callCount t + 1) F.maxCalls <;> rfl
+
+theorem afterCmd_OutInv (x : Act) (c : Cmd) (r : Res) (h : OutInv x) : OutInv (x.afterCmd c r) := by
+  have hn : OutInv (x.next x.rest.tail (x.idx + 1)) := by
+    unfold OutInv
+    rw [(next_more x _ _).2.1, next_out, (next_frame x _ _).2.2.2.2]; exact h
+  have hf : ∀ (z : Act) (e : Res), OutInv (z.fail e) := fun z e => rfl
+  unfold Act.afterCmd
+  simp only
+  split
+  · exact hn
+  · split
+    · exact hn
+    · exact hf _ _
+  · exact hf _ _
+
+theorem OutInv_local (F : Flags) (o : Obs) (x : Act) (ev : Ev) (y : Act) (eff : Eff)
+    (hI : OutInv x) (h : stepLocal F o x ev = some (y, eff)) : OutInv y := by
+  have hL := LStep_of_stepLocal F o x ev y eff h
+  have hdef : ∀ z : Act, OutInv z → OutInv z.afterDefer := by
+    intro z hz
+    unfold OutInv
+    rw [(afterDefer_fields z).2.2.1, afterDefer_out, (afterDefer_frame z).2.2.2.2]; exact hz
+  cases hL with
+  | guardsPassed hp hc =>
+    unfold OutInv
+    rw [(next_more x _ _).2.1, next_out, (next_frame x _ _).2.2.2.2]; exact hI
+  | cmdEndBody i r cmd tl hp hr hc hs => exact afterCmd_OutInv x cmd r hI
+  | callReacqBody i cmd tl hp hc hr => exact afterCmd_OutInv { x with holds := true } cmd x.callRes hI
+  | callReacqDefer i hp hc => exact hdef { x with holds := true } hI
+  | cmdEndDefer j r cmd hp hd hs => exact hdef x hI
+  | depsDoneFail r rs hp hd hr hm => exact depErr_eq_wrapFor x.indirect r
+  | wWake r hp he => rfl
+  | ctxErr hp hc => rfl
+  | precondFail hp hc => rfl
+  | upToDate hp hc => rfl
+  | promptFail hp hc => rfl
+  | _ => exact hI
+
+theorem OutInv_sound (P : Program) (F : Flags) (n : Nat) (tr : List Label) (c : Config)
+    (h : replay P F (init n) tr = some c) (a : Nat) (x : Act) (hx : c.act? a = some x) :
+    x.res = wrapFor x.indirect x.out :=
+  localInv_sound OutInv P F (OutInv_fresh P F) (fun o x ev y eff => OutInv_local F o x ev y eff)
     (fun _ _ h => h) n tr c h a x hx
 
 /-! ### `failStopMonP` ↔ model -/
